@@ -236,7 +236,7 @@ def run_shard(shard, tier, seed):
         hist = []
 
         def body(rnd, mode=mode, e=e, hist=hist):
-            b = I.gen_bytes(rnd, mode, e)
+            b = I.gen_x86_modrm(rnd, mode) if (I.is_x86 and rnd.random() < 0.25) else I.gen_bytes(rnd, mode, e)
             res = one_case(I, R, b, mode, e)
             prev = [h.hex() for h in hist[-3:]]
             hist.append(b)
